@@ -37,6 +37,7 @@ Definition field_spec (acc: cls -> list nat -> verdict) (cl: list cls) (s: site)
   /\ (forall c, o = ORej c <-> carries cl s c t /\ v c = VReject)
   /\ (o = ONotFound <-> forall c, ~ carries cl s c t)
   /\ o <> OMissing /\ o <> OBadSite /\ (forall c, o = OKeyErr c <-> carries cl s c t /\ v c = VKeyError)
+  /\ (forall c, o = OAttrErr c <-> carries cl s c t /\ v c = VAttrError)
   /\ (forall cs, o <> OMany cs) /\ o <> ONotDict /\ o <> OCrash.
 
 (* what the property demands in no-field mode (acceptance abstract) *)
